@@ -334,6 +334,9 @@ func c18Tree(c *fw.Ctx, layer string, ops []c18Op, depth, part, parts int) {
 }
 
 func c18Run(c *fw.Ctx) {
+	{
+		interfRun(c, "C18") // statement-level interleavings of operations on disjoint objects (subprocess)
+	}
 	if c.Thorough() {
 		c18Keys = []string{"k1", "k2", "x.entity", "k1.tmp"}
 	}
